@@ -657,6 +657,9 @@ func genCase(r *hx.Rand, n int) jcase {
 			jc.Ops = append(jc.Ops, jop{Op: "tx", Peer: p, Amt: g.small().String()})
 		case k < 66:
 			thr := big.NewInt(int64(1 + r.Intn(120)))
+			if out := new(big.Int).Sub(g.z(g.owed, a), g.z(g.delivered, a)); a > 0 && out.Sign() > 0 && r.Chance(1, 4) {
+				thr = out // boundary: the threshold is (the generator's estimate of) exactly the outstanding amount
+			}
 			if !g.consistent && r.Chance(1, 4) {
 				thr = big.NewInt(int64(r.Intn(3)) - 1)
 			}
@@ -755,7 +758,7 @@ func main() {
 	for _, jc := range corpus() {
 		runCase(jc)
 	}
-	n := run.N(220, 3000)
+	n := run.N(150, 2500)
 	for i := 0; i < n; i++ {
 		runCase(genCase(run.R.Fork(uint64(i)), 8+run.R.Intn(23)))
 	}
